@@ -3,6 +3,7 @@ package main
 import (
 	"bytes"
 	"fmt"
+	"math"
 	"strconv"
 	"strings"
 )
@@ -58,10 +59,63 @@ func serveLine(cfg string, segs [][]byte, script string, floats string, extra st
 	sb.WriteString(" | ")
 	sb.WriteString(script)
 	sb.WriteString(" | ")
-	sb.WriteString(floats)
+	sb.WriteString(withStreamFloats(floats, segs))
 	sb.WriteString(" | ")
 	sb.WriteString(extra)
 	return sb.String()
+}
+
+// withStreamFloats completes a float table with every bulk payload that actually occurs in the stream (mutated
+// requests carry tokens their generator never listed): the model's float oracle must know every token the
+// implementation can hand to strconv.ParseFloat.
+func withStreamFloats(floats string, segs [][]byte) string {
+	seen := map[string]bool{}
+	for _, f := range strings.Fields(floats) {
+		if i := strings.IndexByte(f, '='); i > 0 {
+			seen[f[:i]] = true
+		}
+	}
+	var all []byte
+	for _, s := range segs {
+		all = append(all, s...)
+	}
+	parts := []string{}
+	if strings.TrimSpace(floats) != "" {
+		parts = append(parts, strings.TrimSpace(floats))
+	}
+	add := func(tok []byte) {
+		if len(tok) == 0 || len(tok) > 40 || seen[hx(tok)] {
+			return
+		}
+		seen[hx(tok)] = true
+		if f, err := strconv.ParseFloat(string(tok), 64); err == nil {
+			parts = append(parts, fmt.Sprintf("%s=%016x", hx(tok), math.Float64bits(f)))
+		}
+	}
+	for i := 0; i < len(all); i++ {
+		// a line value (+ - :) or the payload of a bulk string starting here
+		switch all[i] {
+		case '+', '-', ':':
+			if j := bytes.IndexByte(all[i+1:], '\r'); j >= 0 && j <= 40 {
+				add(all[i+1 : i+1+j])
+			}
+		case '$':
+			j := i + 1
+			n := 0
+			for j < len(all) && all[j] >= '0' && all[j] <= '9' && j-i < 4 {
+				n = n*10 + int(all[j]-'0')
+				j++
+			}
+			if j > i+1 && j+1 < len(all) && all[j] == '\r' && j+2+n <= len(all) && n <= 40 {
+				tok := all[j+2 : j+2+n]
+				add(tok)
+				if len(tok) > 0 && tok[0] == '(' {
+					add(tok[1:])
+				}
+			}
+		}
+	}
+	return strings.Join(parts, " ")
 }
 
 func allForms() []string {
